@@ -550,6 +550,27 @@ func init() {
 				}
 				add(c)
 			}
+			// a pattern field whose keywords are all multi-byte: texts with fewer CHARACTERS than the shortest keyword has
+			// BYTES that still contain a keyword (seed C03-13, which the random texts stopped producing)
+			{
+				kw := func(inc bool, ss ...string) eExpr {
+					l := make([]TV, len(ss))
+					for i, x := range ss {
+						l[i] = tvStr(x)
+					}
+					return eExpr{F: 1, Inc: inc, V: tvSlice("[]string", l...)}
+				}
+				c := rCase{Fields: []rField{{F: 0, Cont: "default"}, {F: 1, Cont: "ac_matcher"}}}
+				c.Docs = []eDoc{
+					{ID: 1, Cons: []eConj{{kw(true, "北京")}}},
+					{ID: 2, Cons: []eConj{{kw(true, "上海市", "广州市")}}},
+					{ID: 3, Cons: []eConj{{kw(false, "北京"), {F: 0, Inc: true, V: tvStr("x")}}}},
+				}
+				for i, t := range []string{"北京", "去北京", "上海市", "北", "x", "北京上海市"} {
+					c.Ops = append(c.Ops, rOp{S: 0, Op: "reset"}, rOp{S: 0, Op: []string{"retrieve", "docs"}[i%2], A: []eAssign{{F: 1, V: tvStr(t)}, {F: 0, V: tvStr("x")}}}, rOp{S: 0, Op: "raw"})
+				}
+				add(c)
+			}
 			// refused documents between accepted ones: a one-expression document whose value the field's parser refuses
 			// (AddDocument returns early), then documents whose FIRST conjunction does not mention that field at all
 			for _, par := range []string{"number", ""} {
